@@ -1605,6 +1605,10 @@ impl VirtualFileSystem for Memfs {
             None => return Err(PathError::does_not_exist(dst_dir).into()),
         }
         if let Some(x) = guard.get_entry(&dst_target) {
+            // A directory can't take the place of a file or link
+            if self._is_dir(&guard, &src_root) && !(x.is_dir() && !x.is_symlink()) {
+                return Err(PathError::is_not_dir(dst_target).into());
+            }
             if let Some(ref files) = x.files {
                 if !files.is_empty() {
                     return Err(PathError::dir_contains_files(dst_target).into());
